@@ -20,6 +20,8 @@ PROPS = {
         models=[
             dict(name="bcast", pkg="./bcastx", test="TestBcast", coq_mod="Bcast.Spec", run_check="run_check_bcast",
                  corpus="bcast", quick_n=2000, thorough_n=200000, nontrivial=_nt_bcast,
+                 # the same correspondence in the free-running regime, in every check (harness/bcastx/free_test.go)
+                 free_search=dict(test="TestBcastFree", props={"C03": [5]}), free_always=True,
                  rule="implementation-driven random gate-level histories on one Broadcast guarding a harness-owned integer "
                       "(HoldLock / TryHoldLock / HoldLockMaybeAsync callbacks running small programs of broadcast, getWaitCh, g++ and g:=v, "
                       "callbacks that stay inside the lock, callers that block on the channel they took, Wait with 4 predicate kinds incl. "
